@@ -87,9 +87,10 @@ def coord(draw, cls, scale_exp):
             plb, pub = lb + a * W, ub - b * W
     elif cls == "log":
         lb = W
-        plb = lb * draw(st.sampled_from([1.0, 1.5, 3.0]))
-        pub = plb * draw(st.sampled_from([10.0, 10.0, 30.0, 1e3, 1e4]))
-        ub = pub * draw(st.sampled_from([1.0, 2.0, 10.0]))
+        # (irregular multipliers too: with round ratios the transformed bounds always sit at the same few mesh offsets)
+        plb = lb * draw(st.sampled_from([1.0, 1.5, 3.0, 1500.0]))
+        pub = plb * draw(st.sampled_from([10.0, 10.0, 30.0, 1e3, 1e4, 410.7, 77.3]))
+        ub = pub * draw(st.sampled_from([1.0, 2.0, 10.0, 1.37, 1.623, 3.3, 1.05]))
     elif cls == "posnolog":
         lb = W
         plb = lb * draw(st.sampled_from([1.0, 1.2, 2.0]))
@@ -310,6 +311,8 @@ def scenario(draw, p=None):
     # target
     kind = draw(st.sampled_from(p["target_kinds"]))
     ccls = [draw(st.sampled_from(p["c_classes"])) for _ in range(D)]
+    if x0 is not None and chance(draw, p.get("p_warm", 0.0)):
+        ccls = ["at_x0"] * D  # warm start: the minimiser is the starting point itself
     cz = [draw(c_coord(coords[i], ccls[i] if ccls[i] != "at_x0" else "inside", nonlinear)) for i in range(D)]
     if x0 is not None:
         for i in range(D):
@@ -402,6 +405,8 @@ def scenario(draw, p=None):
     np_seed = draw(st.integers(0, 2**31 - 1))
     if not chance(draw, p["p_seed_none"]):
         opts["random_seed"] = draw(st.integers(0, 10**6))
+        if chance(draw, p.get("p_seed_numpy", 0.0)):
+            opts["__seed_dtype__"] = draw(st.sampled_from(["np.int64", "np.int32"]))
 
     return dict(
         D=D, coords=coords, plaus_omitted=plaus_omitted, x0=x0, x0cls=x0cls,
